@@ -286,3 +286,35 @@ func VerifCoalescingCloseUnread() {
 	zzverif.Assert(zzverif.ThreadsAliveIs(0), "helpers_finished_when_close_returns")
 	zzverif.Cover("coalescing_close_unread_done")
 }
+
+// Adds issued from several goroutines at once (cap = 2, inside the window after a first Add): the Adds do not interfere
+// with each other - no unsynchronised access to the limiter's state (a data race on the pending counter loses
+// increments) - and the cap is noticed: the burst is signalled without waiting for the window to end.
+//
+//verif:harness prop=C09 name=coalescing_concurrent_adds threads=10 sched=delay preempt=2 t_preempt=3 unwind=12 witness=lenient race=violation
+func VerifCoalescingConcurrentAdds() {
+	capN := 2
+	c, clk, obs, _, runDone := vSetup(&capN)
+	vAdd(c, obs)
+	zzverif.WaitQuiescent()
+	zzverif.Assert(obs.signals == 1, "first_add_after_idle_signalled_immediately")
+	done := make(chan struct{}, 3)
+	for i := 0; i < 3; i++ {
+		go func() {
+			c.Add()
+			done <- struct{}{}
+		}()
+	}
+	<-done
+	<-done
+	<-done
+	zzverif.Ghost(func() { obs.adds += 3 })
+	zzverif.WaitQuiescent()
+	zzverif.Assert(obs.signals >= 2, "signal_as_soon_as_pending_cap_reached")
+	zzverif.Assert(obs.signals <= obs.adds, "signals_never_exceed_adds")
+	clk.Advance(2 * vMax)
+	zzverif.WaitQuiescent()
+	c.Close()
+	<-runDone
+	zzverif.Cover("coalescing_concurrent_adds_done")
+}
